@@ -188,6 +188,10 @@ def judgeScoreOp (op : List String) (impl : String) : Option (Option String × L
   | ["F", ver, c] =>
     let r := judgeScore ver (unhex c) impl
     some (r.1, r.2.1, r.2.2, "F" ++ ver)
+  | ["H", ver, _, c] =>
+    -- the scores of `c` reached through a history on one object: judged exactly like a fresh `F`
+    let r := judgeScore ver (unhex c) impl
+    some (r.1, r.2.1, r.2.2, "H" ++ ver)
   | ["M", ver, c, a, v1, v2] =>
     let r := judgeMono ver (unhex c) (unhex a) (unhex v1) (unhex v2) impl
     some (r.1, r.2.1, r.2.2, "M" ++ ver)
